@@ -90,9 +90,21 @@ Definition raw_setitem_int (s : st) (index : Z) (x : elem) : st * out :=
       end
   end.
 
-(* drop_many(indexes) *)
+(* drop_many(indexes): every index is validated and normalised first (IndexError before anything is
+   touched; negatives count from the end; duplicates collapse in the set) *)
+Fixpoint norm_all (n : Z) (ps : list Z) : res (list Z) :=
+  match ps with
+  | [] => Ok []
+  | p :: r => match norm_index n p with
+              | Err _ => Err IndexError
+              | Ok j => match norm_all n r with Err e => Err e | Ok q => Ok (j :: q) end
+              end
+  end.
 Definition raw_drop_many (s : st) (ps : list Z) : st * out :=
-  (notify (with_items s (remove_positions ps (items s))), OkNone).
+  match norm_all (zlen (items s)) ps with
+  | Err e => (s, Err e)
+  | Ok qs => (notify (with_items s (remove_positions qs (items s))), OkNone)
+  end.
 
 (* the extended-slice loop of __setitem__: for i, value in zip(r, values): items[i] = value *)
 Definition raw_setitem_slice (s : st) (sl : slc) (values : list elem) : st * out :=
@@ -165,6 +177,23 @@ Definition raw_pop (s : st) (index : Z) : st * out :=
           | Ok (_, its) => (notify_splice (r_start r) (r_stop r) [] (with_items s its), Ok [value])
           end
       end
+  end.
+
+(* reverse() (fixes/repeated-reverse.patch; MutableSequence.reverse assigns attached nodes and is refused):
+   values = [self.pop() for _ in range(len(items))]; self.extend(values) *)
+Fixpoint raw_pop_all (fuel : nat) (s : st) (acc : list elem) : st * res (list elem) :=
+  match fuel with
+  | O => (s, Ok acc)
+  | S f => match raw_pop s (-1) with
+           | (s', Ok [y]) => raw_pop_all f s' (acc ++ [y])
+           | (s', Ok _) => (s', Err ModelStuck)
+           | (s', Err e) => (s', Err e)
+           end
+  end.
+Definition raw_reverse (s : st) : st * out :=
+  match raw_pop_all (length (items s)) s [] with
+  | (s', Err e) => (s', Err e)
+  | (s', Ok values) => raw_extend s' values
   end.
 
 (* claim_/unclaim_interleaving_comments: self._repeated.items[:] = items; self._notify()
@@ -321,6 +350,28 @@ Definition v_discard (s : st) (v : view) (value : elem) : st * out :=
   | Ok ps => raw_drop_many s ps
   end.
 
+(* view.reverse() (same patch): the raw models of the view are popped last to first and re-inserted at the
+   same raw positions first to last *)
+Fixpoint v_pop_each (s : st) (ps : list Z) (acc : list elem) : st * res (list elem) :=
+  match ps with
+  | [] => (s, Ok acc)
+  | p :: r => match raw_pop s p with
+              | (s', Ok [y]) => v_pop_each s' r (acc ++ [y])
+              | (s', Ok _) => (s', Err ModelStuck)
+              | (s', Err e) => (s', Err e)
+              end
+  end.
+Fixpoint v_insert_each (s : st) (ps : list Z) (values : list elem) : st * out :=
+  match ps, values with
+  | p :: ps', x :: xs' => v_insert_each (fst (raw_insert s p x)) ps' xs'
+  | _, _ => (s, OkNone)
+  end.
+Definition v_reverse (s : st) (v : view) : st * out :=
+  match v_pop_each s (rev (v_idx v)) [] with
+  | (s', Err e) => (s', Err e)
+  | (s', Ok values) => v_insert_each s' (v_idx v) values
+  end.
+
 (* ===== mapping layer (RepeatedRawMetaItemWrapper: raw = true; RepeatedMetaItemWrapper: raw = false) *)
 (* for i, item in enumerate(self): if item.key == key *)
 Fixpoint m_find (its : list elem) (key : Z) (ps : list Z) (i : Z) : res (option (Z * Z * elem)) :=
@@ -381,6 +432,21 @@ Definition m_pop (raw : bool) (s : st) (v : view) (key : Z) (has_default : bool)
       end
   end.
 
+(* popitem(): for item in self: return item.key, self.pop(item.key); KeyError when empty *)
+Definition m_popitem (raw : bool) (s : st) (v : view) : st * out :=
+  match v_idx v with
+  | [] => (s, Err KeyError)
+  | p :: _ =>
+      match list_get_int (items s) p with
+      | Err e => (s, Err e)
+      | Ok item =>
+          match m_pop raw s v (e_key item) false with
+          | (s', Ok [x]) => (s', Ok [mkelem 0 (e_key item) 0; x])
+          | r => r
+          end
+      end
+  end.
+
 (* keys(): [item.key for item in self] *)
 Definition m_keys (s : st) (v : view) : st * out :=
   match fetch KNode (items s) (v_idx v) with
@@ -413,7 +479,9 @@ Inductive op :=
 | VRemove (k : nat) (x : elem) | VDiscard (k : nat) (x : elem)
 | MGet (k : nat) (raw : bool) (key : Z) | MContains (k : nat) (key : Z) | MDel (k : nat) (key : Z)
 | MSet (k : nat) (raw : bool) (key : Z) (x : elem) | MPop (k : nat) (raw : bool) (key : Z) (dflt : bool)
-| MKeys (k : nat) | MValues (k : nat) (raw : bool) | MItems (k : nat) (raw : bool).
+| MKeys (k : nat) | MValues (k : nat) (raw : bool) | MItems (k : nat) (raw : bool)
+| MPopItem (k : nat) (raw : bool)
+| RReverse | VReverse (k : nat).
 
 Definition with_view (s : st) (k : nat) (f : view -> st * out) : st * out :=
   match nth_error (views s) k with
@@ -454,6 +522,9 @@ Definition step (s : st) (o : op) : st * out :=
   | MKeys k => with_view s k (m_keys s)
   | MValues k raw => with_view s k (m_values raw s)
   | MItems k raw => with_view s k (m_items raw s)
+  | MPopItem k raw => with_view s k (m_popitem raw s)
+  | RReverse => raw_reverse s
+  | VReverse k => with_view s k (v_reverse s)
   end.
 
 (* a history: the state after every operation (exceptions do not stop a history) *)
